@@ -1,6 +1,7 @@
 package rules
 
 import (
+	"os"
 	"fmt"
 	"go/ast"
 	"go/constant"
@@ -2134,5 +2135,184 @@ func filterParmsParallel(c *eng.Ctx, R string) {
 	}
 	if n == 0 {
 		c.Undec(R, "core.(*Stream).Decode#filter-object", fn.Pos(), "no dispatch on the type of the /Filter object found")
+	}
+}
+
+// R1.9 [C01] / R12.12 [C12]
+func ruleWorklistOrderC01(c *eng.Ctx) { worklistOrder(c, "R1.9-WORKLIST-ORDER") }
+func ruleWorklistOrderC12(c *eng.Ctx) { worklistOrder(c, "R12.12-WORKLIST-ORDER") }
+
+func worklistOrder(c *eng.Ctx, R string) {
+	c.Rule(R, "a tree walk written with an explicit work list visits the nodes in document (depth-first, left-to-right) order: taking from the back requires pushing the children in reverse, taking from the front requires putting the children in front. Front-take with back-append is a breadth-first walk (pages at different depths of the page tree change places), back-take with children appended in their natural order visits siblings right to left", 0, 1)
+	for _, fn := range c.P.ModuleFuncs() {
+		if fn.Blocks == nil {
+			continue
+		}
+		// order-insensitive folds (counts, sums) may walk in any order
+		if res := fn.Signature.Results(); res.Len() == 1 {
+			if bt, ok := res.At(0).Type().Underlying().(*types.Basic); ok && bt.Info()&types.IsNumeric != 0 {
+				continue
+			}
+		}
+		n := 0
+		eng.Instrs(fn, false, func(in ssa.Instruction) {
+			w, ok := in.(*ssa.Phi)
+			if !ok || !isLoopCarried(w) {
+				return
+			}
+			if _, isSlice := w.Type().Underlying().(*types.Slice); !isSlice {
+				return
+			}
+			// loop condition len(w) > 0 / != 0 in the header
+			hdr := w.Block()
+			isWork := false
+			if iff, ok := hdr.Instrs[len(hdr.Instrs)-1].(*ssa.If); ok {
+				if cmp, ok := iff.Cond.(*ssa.BinOp); ok && (cmp.Op == token.GTR || cmp.Op == token.NEQ) {
+					if call, ok := cmp.X.(*ssa.Call); ok {
+						if bi, ok := call.Call.Value.(*ssa.Builtin); ok && bi.Name() == "len" && call.Call.Args[0] == ssa.Value(w) {
+							if k, isC := eng.ConstInt(cmp.Y); isC && k == 0 {
+								isWork = true
+							}
+						}
+					}
+				}
+			}
+			if !isWork {
+				return
+			}
+			derived := func(v ssa.Value) bool { // v is w or a re-slice of it
+				for i := 0; i < 4; i++ {
+					if v == ssa.Value(w) {
+						return true
+					}
+					sl, ok := v.(*ssa.Slice)
+					if !ok {
+						return false
+					}
+					v = sl.X
+				}
+				return false
+			}
+			front, back := false, false
+			backNatural, backReversed, prepend := false, false, false
+			eng.Instrs(fn, false, func(in2 ssa.Instruction) {
+				switch x := in2.(type) {
+				case *ssa.Slice:
+					if x.X != ssa.Value(w) {
+						return
+					}
+					if k, ok := eng.ConstInt(x.Low); ok && k == 1 && x.High == nil {
+						front = true
+					}
+					if x.Low == nil && x.High != nil {
+						if b, ok := x.High.(*ssa.BinOp); ok && b.Op == token.SUB {
+							if k, ok := eng.ConstInt(b.Y); ok && k == 1 {
+								back = true
+							}
+						}
+					}
+				case *ssa.Call:
+					bi, ok := x.Call.Value.(*ssa.Builtin)
+					if !ok || bi.Name() != "append" || len(x.Call.Args) != 2 {
+						return
+					}
+					a0, a1 := x.Call.Args[0], x.Call.Args[1]
+					// follow the loop-carried variable through inner phis
+					var isWd func(v ssa.Value, d int) bool
+					isWd = func(v ssa.Value, d int) bool {
+						if d > 4 {
+							return false
+						}
+						if derived(v) {
+							return true
+						}
+						switch y := v.(type) {
+						case *ssa.Phi:
+							for _, e := range y.Edges {
+								if e != ssa.Value(y) && isWd(e, d+1) {
+									return true
+								}
+							}
+						case *ssa.Slice:
+							return isWd(y.X, d+1)
+						case *ssa.Call:
+							// the list after an earlier append in the same trip
+							if b2, ok := y.Call.Value.(*ssa.Builtin); ok && b2.Name() == "append" && len(y.Call.Args) > 0 {
+								return isWd(y.Call.Args[0], d+1)
+							}
+						}
+						return false
+					}
+					isW := func(v ssa.Value) bool { return isWd(v, 0) }
+					// only pushes made inside the work-list loop itself count (a hierarchy stack that is popped in a
+					// small loop and pushed to afterwards is not a tree walk)
+					inLoopOfHdr := hdr.Dominates(x.Block()) && eng.ReachableBlocks([]*ssa.BasicBlock{x.Block()}, func(b *ssa.BasicBlock) bool { return b != hdr && !hdr.Dominates(b) })[hdr]
+					if !inLoopOfHdr {
+						return
+					}
+					switch {
+					case isW(a0):
+						// back-append: a whole slice (natural order) or single elements from an inner loop
+						natural := true
+						if sl, ok := a1.(*ssa.Slice); ok {
+							if al, ok := sl.X.(*ssa.Alloc); ok && strings.Contains(al.Comment, "varargs") {
+								// single element: direction of the enclosing inner loop
+								natural = true
+								for u := range eng.Slice(a1, nil) {
+									_ = u
+								}
+								// look at the index that selects the pushed child
+								for _, r := range *al.Referrers() {
+									ia, ok := r.(*ssa.IndexAddr)
+									if !ok {
+										continue
+									}
+									for _, rr := range *ia.Referrers() {
+										st, ok := rr.(*ssa.Store)
+										if !ok {
+											continue
+										}
+										for u := range eng.Slice(st.Val, nil) {
+											if ci, ok := u.(*ssa.IndexAddr); ok {
+												if _, isInd := eng.Induction(ci.Index); !isInd {
+													if _, isC := eng.ConstInt(ci.Index); !isC {
+														natural = false // a descending or computed index
+													}
+												}
+											}
+										}
+									}
+								}
+								if !eng.InLoop(x.Block()) || x.Block() == hdr {
+									natural = true
+								}
+							}
+						}
+						if natural {
+							backNatural = true
+						} else {
+							backReversed = true
+						}
+					case isW(a1) && !isW(a0):
+						prepend = true
+					}
+				}
+			})
+			if os.Getenv("VDEBUG") != "" {
+				fmt.Fprintf(os.Stderr, "WL %s front=%v back=%v bn=%v br=%v pre=%v\n", eng.FuncName(fn), front, back, backNatural, backReversed, prepend)
+			}
+			if (!front && !back) || (!backNatural && !backReversed && !prepend) {
+				return
+			}
+			n++
+			bad := ""
+			switch {
+			case front && backNatural && !prepend:
+				bad = "elements are taken from the front and children appended at the back: a breadth-first walk"
+			case back && backNatural && !backReversed:
+				bad = "elements are taken from the back and children appended in their natural order: siblings are visited right to left"
+			}
+			c.Check(bad == "", R, fmt.Sprintf("%s#worklist%d", eng.FuncName(fn), n), w.Pos(), "the work list preserves depth-first left-to-right order", bad+", not the document order a recursive walk gives")
+		})
 	}
 }
